@@ -34,7 +34,7 @@ func (cl *Client) VerifSetProduceSequence(topic string, partition, seq int32) er
 // VerifRing wraps ring[int].
 type VerifRing struct{ r ring[int] }
 
-func (v *VerifRing) InitMaxLen(n int)                  { v.r.initMaxLen(n) }
+func (v *VerifRing) InitMaxLen(n int)                   { v.r.initMaxLen(n) }
 func (v *VerifRing) Push(e int) (first, dead bool)      { return v.r.push(e) }
 func (v *VerifRing) PushForce(e int) (first, dead bool) { return v.r.pushForce(e) }
 func (v *VerifRing) DropPeek() (int, bool, bool)        { return v.r.dropPeek() }
